@@ -867,6 +867,9 @@ func (c *rcluster) waitEv(from int, d time.Duration, pred func(ev) bool) bool {
 }
 
 func replayReal(bi int, beh []mbt.Step, in *mbt.Input, res *mbt.Result) {
+	if len(res.Violations) >= 3 {
+		return
+	}
 	W := in.CfgInt("W", 1)
 	c, err := newRCluster(W)
 	if err != nil {
